@@ -132,7 +132,8 @@ const ELA = common.Fixed64(100000000)
 //
 //	height 1            CR voting starts (first voting period 1..7)
 //	height 8            first committee takes office (CRCommitteeStartHeight)
-//	duty 14, voting 5   next voting period = [LastCommitteeHeight+9, LastCommitteeHeight+14)
+//	duty 20, voting 8   next voting period = [LastCommitteeHeight+12, LastCommitteeHeight+20)
+//	                    (a candidate needs ActivateDuration=6 blocks inside the voting period)
 //	proposal CR review 2 blocks, public (voter) review 2 blocks, deposit lock-up 3 blocks
 //	2 council members, both must approve; secretary-general = K("sg")
 func Params() *config.Configuration {
@@ -141,8 +142,8 @@ func Params() *config.Configuration {
 	c := &p.CRConfiguration
 	c.MemberCount = 2
 	c.CRAgreementCount = 2
-	c.VotingPeriod = 5
-	c.DutyPeriod = 14
+	c.VotingPeriod = 8
+	c.DutyPeriod = 20
 	c.ProposalCRVotingPeriod = 2
 	c.ProposalPublicVotingPeriod = 2
 	c.DepositLockupBlocks = 3
